@@ -49,6 +49,9 @@ class Root:
     sa: list[int] = field(default_factory=list, metadata={"type": "Element", "sequence": 1})
     sb: Optional[str] = field(default=None, metadata={"type": "Element", "sequence": 1})
     sc: list[Child] = field(default_factory=list, metadata={"type": "Element", "sequence": 1})
+    nz: Optional[int] = field(default=None, metadata={"type": "Element", "nillable": True})
+    nb: Optional[bool] = field(default=None, metadata={"type": "Element", "nillable": True})
+    nl: list[str] = field(default_factory=list, metadata={"type": "Element", "nillable": True})
 '''
 INST_RICH = {"__cls__": "Root", "fields": {
     "ident": {"__p__": "int", "v": -42}, "kind": {"__p__": "str", "v": "a b<&\u00e9"},
@@ -63,7 +66,9 @@ INST_RICH = {"__cls__": "Root", "fields": {
     "sa": [{"__p__": "int", "v": 1}, {"__p__": "int", "v": 2}, {"__p__": "int", "v": 3}],
     "sb": {"__p__": "str", "v": "mid"},
     "sc": [{"__cls__": "Child", "fields": {"value": {"__p__": "int", "v": 9}, "flag": None, "tags": []}},
-           {"__cls__": "Child", "fields": {"value": None, "flag": {"__p__": "bool", "v": True}, "tags": []}}]}}
+           {"__cls__": "Child", "fields": {"value": None, "flag": {"__p__": "bool", "v": True}, "tags": []}}],
+    "nz": {"__p__": "int", "v": 0}, "nb": {"__p__": "bool", "v": False},
+    "nl": [{"__p__": "str", "v": "a"}, {"__p__": "str", "v": "b c"}]}}
 WITNESS_NIL = G.HEADER + '''
 @dataclass
 class B:
@@ -198,7 +203,8 @@ Import ListNotations.
 (* model `rich` (see harness/c01.py WITNESS_RICH): attributes (optional int, namespaced str with a
    default, int tokens), elements (str, unqualified str holding '', int list, token list, list of
    token lists, nested simple-content class, a wrapped list of it, an empty wrapped list, a sequence
-   group of an int list, an optional str and a class list), class namespace urn:a, Meta.name *)
+   group of an int list, an optional str and a class list, nillable int / bool fields holding the falsy
+   values 0 / False and a nillable str list), class namespace urn:a, Meta.name *)
 '''
     txt += D("u_rich", "universe", rich["universe"])
     txt += D("root_rich", "cls", rich["root"])
@@ -330,6 +336,7 @@ GUARD_PREDS = {
     "in_guard_qname": "fun k => negb (in_guard_w k && uses_qname k)",
     "in_guard_recursive": "fun k => negb (in_guard_w k && uses_recursion (rc_universe k))",
     "in_guard_xsi": "fun k => negb (in_guard_w k && uses_xsi_type k)",
+    "in_guard_nillable": "fun k => negb (in_guard_w k && uses_nillable (rc_universe k))",
     "guard-oracle": "oracle_in_guard",
     "corr-generate-in-guard": "fun k => negb (in_guard_w k) || gen_agree k",
     "corr-parse-in-guard": "fun k => negb (in_guard_w k) || parse_agree k",
@@ -378,6 +385,7 @@ def guard_layer(ck, jobs, stats):
     stats["guard_inside_with_qname_values"] = len(bad["in_guard_qname"])
     stats["guard_inside_with_recursive_class"] = len(bad["in_guard_recursive"])
     stats["guard_inside_with_subclass_instance"] = len(bad["in_guard_xsi"])
+    stats["guard_inside_with_nillable_field"] = len(bad["in_guard_nillable"])
     stats["guard_inside_share"] = round(len(inside) / max(1, len(terms)), 3)
     stats["guard_skipped"] = skipped
     for cls in ("guard-oracle", "corr-generate-in-guard", "corr-parse-in-guard", "guard-theorem-instance",
@@ -845,9 +853,10 @@ def run(ck: Check):
     ck.cov["input_distribution"] = stats
     ck.cov["samples"] = ck.cov["samples"] + [{"case": jobs[-1]["cases"][0], "instance": jobs[-1]["instances"][0]}]
     ck.cov["proved_slice"] = ("C01_roundtrip_S4: Attribute / Element / Text fields of primitive, enum or exact class type, optional, default, list, "
-                              "tokens, list of token lists, nested classes, wrappers, sequence groups (scalars and lists interleaved), namespaces; infoset "
+                              "tokens, list of token lists, nested classes (recursive class graphs, subclass instances with xsi:type), wrappers, sequence groups, "
+                              "QName values, nillable simple-typed fields holding non-empty values, namespaces; infoset "
                               "level, every reading (attribute order, prefix maps, indentation) and, through C03, the printed document; everything else "
-                              "(wrapped lists inside a sequence group, nillable, wildcards, compound fields, xsi:type, unions, QName values, below the "
+                              "(wrapped lists inside a sequence group, None / empty text / class instances in nillable fields, wildcards, compound fields, unions, below the "
                               "infoset) is covered by correspondence + oracle only")
     return ck.finish(obligations=obligations, discharged=discharged, checker_cmd="coqc", trusted_base=TRUSTED_COMMON,
                      assumptions=axioms)
